@@ -12,14 +12,16 @@ def phases_for(tier):
     cq = dsl.core_quantifier_ops()
     core, small, tiny = al.core_atoms(), al.small_atoms(), al.tiny_atoms()
     L = explore.Level
+    conf = (al.confuser_atoms(), [L(q + gq + an, bi, small, (0, 1), 'type-confusing composite operands: all ops, small partners')], False)
     if tier == 'quick':
-        return [
+        return [conf,
             (core, [L(q + gq + an, bi, core, (0, 1), 'wide depth 1: all ops, core x core atoms')], False),
             (small, [L(q + gq + an, bi, small, (0, 1), 'deep depth 1: all ops, small x small atoms'),
                      L(cq + gq + an, bi, tiny, (0, 1), 'deep depth 2: core quantifiers, groups, anchors; '
                        'binary ops with the tiny atoms on both sides')], False),
         ]
     return [
+        conf,
         (core, [L(q + gq + an, bi, core, (0, 1), 'wide depth 1: all ops, core x core atoms'),
                 L(q + gq + an, bi, tiny, (0, 1), 'wide depth 2: all unary ops; binary ops with the tiny atoms on both sides')], False),
         (small, [L(q + gq + an, bi, small, (0, 1), 'deep depth 1: all ops, small x small atoms'),
@@ -210,10 +212,10 @@ def run_C05(run):
     n = 0
     for cls in ('Concat', 'Either', 'Enclose'):
         for k in (2, 3, 4, 5, 6):
-            for combo in itertools.product(["'a'", 'Pregex()', "'b|'", "Concat()"], repeat=k):
-                if cls in ('Either', 'Enclose') and combo[0] in ('Pregex()', 'Concat()'):
+            for combo in itertools.product(["'a'", 'Pregex()', "'b|'", "Concat()", "''"] if k <= 4 else ["'a'", 'Pregex()', "''"], repeat=k):
+                if cls in ('Either', 'Enclose') and combo[0] in ('Pregex()', 'Concat()', "''"):
                     continue      # empty first alternative / enclosing nothing: left open
-                kept = [c for c in combo if c not in ('Pregex()', 'Concat()')]
+                kept = [c for c in combo if c not in ('Pregex()', 'Concat()', "''")]
                 if len(kept) == len(combo):
                     continue
                 full, reduced = f"{cls}({', '.join(combo)})", f"{cls}({', '.join(kept)})"
@@ -227,6 +229,27 @@ def run_C05(run):
                     run.add([V(f'C05|nary|{full}', f"{full} -> {a!r} but with the empty operands removed {reduced} -> {b!r}",
                                f"from mc import rx\na = str({full})\nb = str({reduced})\n"
                                f"assert a == b or ((a == '') == (b == '') and rx.equiv(a, b)[0] in ('tree', 'texts')), (a, b)")])
+    # assertion classes and methods with empty operands given in every raw form (all-string argument lists included)
+    empties = ["''", 'Pregex()', "Either('', '')", "Concat('', '')", "Exactly('a', 0)", "Either()"]
+    for m in ("'a'", "Pregex('a')", "'a|b'", "AnyDigit()"):
+        for e in empties:
+            for cls in ('FollowedBy', 'PrecededBy', 'EnclosedBy', 'NotFollowedBy', 'NotPrecededBy', 'NotEnclosedBy'):
+                for src in (f"{cls}({m}, {e})", f"{cls}({m}, {e}, {e})", f"{cls}({m}, 'k', {e})" if cls.startswith('Not') else None,
+                            f"Pregex({m}).{FOLD_METHOD[cls]}({e})" if m[0] in "'" else f"{m}.{FOLD_METHOD[cls]}({e})"):
+                    if src is None:
+                        continue
+                    n += 1
+                    want_exc = cls.startswith('Not')
+                    try:
+                        got = ('ok', str(dsl.build(src)))
+                    except Exception as ex:  # noqa: BLE001
+                        got = ('raise', type(ex).__name__)
+                    ok = got == ('raise', 'EmptyNegativeAssertionException') if want_exc else got == ('ok', str(dsl.build(f"Pregex({m})" if m[0] == "'" else m)))
+                    if not ok:
+                        exp = "raises EmptyNegativeAssertionException" if want_exc else "returns the match pattern unchanged"
+                        code = (f"try:\n    r = {src}\nexcept EmptyNegativeAssertionException:\n    pass\nelse:\n    raise AssertionError(str(r))" if want_exc else
+                                f"assert str({src}) == str(Pregex({m}) if isinstance({m}, str) else {m})")
+                        run.add([V(f'C05|empty-assertion|{src}', f"{src} -> {got!r}; documented: {exp}", code)])
     run.count('nary_empty_cases', n)
     cov['transitions'] += n
     return cov, assumptions
@@ -449,15 +472,27 @@ def run_C08(run):
     res = explore.run(dsl.safe_atoms(atoms, run), levels, [monitors.C08()], nested_tail=(run.tier != 'quick'))
     run.add(res['violations'])
     run.merge_counts(res['counts'])
+    # the alphabet of group names: every shape Python accepts as an identifier (non-ASCII letters, digits, underscores, long)
+    names = ['x\u00e9', 'caf\u00e9', 'x1', '_', '_1', 'x\u0394', 'x\u540d', 'x' * 33, 'P', 'i', 'x\u0661']
+    nops = [dsl.Op('capture', (nm,), 1, [('method', "({0}).capture(%r)" % nm), ('class', "Capture({0}, %r)" % nm)], None, 'group') for nm in names]
+    natoms = [("Pregex('a')", 'a'), ("Capture('a')", None), ("Capture('a', 'q')", None), ("Capture('a', 'x\u00e9')", None),
+              ("Capture(Capture('b', 'w'), 'x\u00f1')", None), ("Capture('a', 'w') + Capture('b', 'x\u00f1')", None),
+              ("Capture(Capture('b', 'x\u00f1'), 'w')", None), ("Group(Capture('b', 'x\u00f1'), True)", None)]
+    nlevels = [L(nops + dsl.group_ops(), cat[:1], partners[:2], (0, 1), f'names depth {i + 1}: capture(name) for {len(names)} name shapes, capture(), group(), group(True)')
+               for i in range(2 if run.tier == 'quick' else 3)]
+    res2 = explore.run(dsl.safe_atoms(natoms, run), nlevels, [monitors.C08()], nested_tail=False)
+    run.add(res2['violations'])
+    run.merge_counts(res2['counts'])
+    res['hashes'] |= res2['hashes']
     cov = {
         'states': len(res['hashes']) + res['counts'].get('tail_states_local', 0),
-        'transitions': res['counts'].get('transitions', 0),
-        'traces_validated_against_impl': res['counts'].get('executions', 0),
-        'evaluations': res['counts'].get('executions', 0),
+        'transitions': res['counts'].get('transitions', 0) + res2['counts'].get('transitions', 0),
+        'traces_validated_against_impl': res['counts'].get('executions', 0) + res2['counts'].get('executions', 0),
+        'evaluations': res['counts'].get('executions', 0) + res2['counts'].get('executions', 0),
         'distinct_nontrivial': len(res['hashes']),
-        'states_per_level': res['states_per_level'],
+        'states_per_level': [res['states_per_level'], res2['states_per_level']],
         'samples': res['samples'],
-        'rule': 'explicit-state BFS over the DSL value graph restricted to grouping operations; the result tree of every '
+        'rule': 'explicit-state BFS over the DSL value graph restricted to grouping operations (plus a second graph over the alphabet of group-name shapes); the result tree of every '
                 'capture()/group() transition is predicted from the operand tree by the documented rules and compared '
                 '(tree equality, else all texts over a derived alphabet incl. group spans)',
         'exhaustive': True,
